@@ -993,7 +993,10 @@ def judge(case, impl, model):
                 if dict(rs.get("wraps", {})) != {k: v for k, v in ms.get("wraps", {}).items()}:
                     msgs.append(f"step {i} define c={op['c']}: implicit wrappers check {rs.get('wraps')} in the real code, {ms.get('wraps')} in the model")
         elif op["op"] == "serialize" and "keys" in rs and "err" not in rs and ms is not None:
-            if bool(ms.get("accepted")) and sorted(ms.get("keys", [])) != rs["keys"]:
+            # (a one-field FastSerializable class whose serializer was generated with compact=True serializes to the bare
+            # value of its field — when that is a nested document, its keys are the nested class's)
+            one_fast = is_fast_class(case, op["c"]) and len(flat_fields(srcs_of(case), op["c"])) == 1
+            if bool(ms.get("accepted")) and not one_fast and sorted(ms.get("keys", [])) != rs["keys"]:
                 msgs.append(f"step {i} serialize c={op['c']} camel_case_convert={bool(op.get('camel'))}: "
                             f"emitted keys {rs['keys']} real, {sorted(ms.get('keys', []))} model")
             if bool(ms.get("accepted")) and "doc" in rs and ms.get("doc") not in (None, "slow") \
